@@ -16,8 +16,13 @@ TOOL = 3
 
 
 class Injector:
-    def __init__(self, modules, seed, p_yield=0.03, p_sleep=0.008):
+    def __init__(self, modules, seed, p_yield=0.03, p_sleep=0.008, instr_cos=(), p_instr=0.0):
         self.cos = [co for m in modules for co in code_objects(m)]
+        # code objects in which pre-emption is also injected between two bytecode INSTRUCTIONS of one line
+        # (a read-then-write of shared state on a single line is a window too)
+        self.instr_cos = list(instr_cos)
+        self.p_instr = p_instr
+        self.instr_yields = 0
         self.seed = seed
         self.p_yield, self.p_sleep = p_yield, p_sleep
         self.tl = threading.local()
@@ -50,6 +55,19 @@ class Injector:
             self.points.add((code.co_name, line))
             time.sleep(r.choice([0.00005, 0.0002, 0.0005]))
 
+    def _on_instruction(self, code, offset):
+        if not self.p_instr:
+            return
+        r = getattr(self.tl, "r", None)
+        if r is None:
+            with self.lock:
+                self.nthreads += 1
+                k = self.nthreads
+            r = self.tl.r = random.Random(self.seed * 1000003 + k)
+        if r.random() < self.p_instr:
+            self.instr_yields += 1
+            time.sleep(r.choice([0, 0, 0.0001, 0.0005, 0.002]))
+
     def reseed(self, seed, p_yield=None, p_sleep=None):
         self.seed = seed
         if p_yield is not None:
@@ -65,6 +83,10 @@ class Injector:
         mon.register_callback(TOOL, mon.events.LINE, self._on_line)
         for co in self.cos:
             mon.set_local_events(TOOL, co, mon.events.LINE)
+        if self.instr_cos:
+            mon.register_callback(TOOL, mon.events.INSTRUCTION, self._on_instruction)
+            for co in self.instr_cos:
+                mon.set_local_events(TOOL, co, mon.events.LINE | mon.events.INSTRUCTION)
         self.active = True
         return self
 
